@@ -247,7 +247,11 @@ def directed(ctx, sc0):
                 body.insert(3 + pi % 4, {"name": "JoinRtsp"})
             if i == 0:
                 body.insert(5, {"name": "DescR"})        # stays attached across the republish
-                body.insert(7 + pi % 3, {"name": "PlayR"})
+                if pi != 3:
+                    body.insert(7 + pi % 3, {"name": "PlayR"})
+            if i == 1 and pi == 3:
+                # (the fourth plan, same tracks twice: described by the earlier publisher, PLAY in the middle of a GOP of the later one)
+                body.insert(13, {"name": "PlayR"})
             if pi == 7 and i == 0:
                 body.insert(len(body) - 2, {"name": "Join", "c": "t2"})
             if i == 1 and pi % 2 == 1 and pi != 7:
